@@ -21,6 +21,9 @@ def compile_text(text, flags, full=False):
             fout.write(text)
         mode = ["-c", "-O0", "-o", os.path.join(tmp, "m.o")] if full \
             else ["-fsyntax-only"]
+        # line length is C18's business (PSyclone's separate line-length
+        # limiter), not the writer's: never let it decide a verdict here
+        mode = mode + ["-ffree-line-length-none"]
         proc = subprocess.run(["gfortran"] + mode + ["-J", tmp] +
                               flags + [path], capture_output=True,
                               text=True, timeout=120, cwd=tmp)
